@@ -855,7 +855,58 @@ def remap_by_types(
                             t_node.func.slice,
                             t_node.func.value,
                         )
+            elif isinstance(t_node.func, ast.Lambda):
+                t_node = self.process_called_lambda(t_node)
             return t_node
+
+        def process_called_lambda(self, node: ast.Call) -> ast.Call:
+            """A lambda that is called where it is written, `(lambda x: x.pt())(j)`: follow its
+            body with its parameters having the types of the arguments (or default values)."""
+            lam = node.func
+            assert isinstance(lam, ast.Lambda)
+            positional = list(lam.args.posonlyargs) + list(lam.args.args)
+            starred = any(isinstance(a, ast.Starred) for a in node.args)
+            if starred or any(k.arg is None for k in node.keywords):
+                return node
+            if lam.args.vararg is not None or lam.args.kwarg is not None:
+                return node
+            if len(node.args) > len(positional):
+                return node
+
+            arg_types: Dict[str, Any] = {a.arg: Any for a in positional + lam.args.kwonlyargs}
+            n_no_default = len(positional) - len(lam.args.defaults)
+            for a, d in zip(positional[n_no_default:], lam.args.defaults):
+                arg_types[a.arg] = self.lookup_type(d)
+            for a, d in zip(lam.args.kwonlyargs, lam.args.kw_defaults):
+                if d is not None:
+                    arg_types[a.arg] = self.lookup_type(d)
+            for a, v in zip(positional, node.args):
+                arg_types[a.arg] = self.lookup_type(v)
+            for k in node.keywords:
+                if k.arg in arg_types:
+                    arg_types[k.arg] = self.lookup_type(k.value)
+
+            # The parameters hide whatever else goes by their names - inside the body only.
+            missing = object()
+            hidden = {name: self._found_types.get(name, missing) for name in arg_types}
+            self._found_types.update(arg_types)
+            try:
+                body = self.visit(lam.body)
+            finally:
+                for name, old in hidden.items():
+                    if old is missing:
+                        self._found_types.pop(name, None)
+                    else:
+                        self._found_types[name] = old
+
+            self._found_types[node] = self.lookup_type(body)
+            if body is not lam.body:
+                new_lam = copy.copy(lam)
+                new_lam.body = body
+                node = copy.copy(node)
+                node.func = new_lam
+            self._found_types[node] = self.lookup_type(body)
+            return node
 
         def visit_Lambda(self, node: ast.Lambda) -> Any:
             "Prevent looking into a lambda until we actually call it"
